@@ -14,7 +14,11 @@ import (
 	"io"
 	"math"
 	"time"
+
+	"github.com/lightninglabs/lightning-node-connect/gbn"
 )
+
+var _ = gbn.DefaultN
 
 var _ = math.MaxUint16
 var _ io.Writer
@@ -79,6 +83,10 @@ func offsetin(sub, whole []byte) int { return 0 }
 // elems / entries: frame designators for modifies clauses
 func elems[T any](s []T) int               { return len(s) }
 func chanstate(ch any) int                 { return 0 }
+
+// bufbytes(&buf): the unread bytes of a bytes.Buffer; disjoint(a, b): no overlap
+func bufbytes(b any) []byte       { return nil }
+func disjoint(a, b []byte) bool   { return true }
 
 // ghost-log designators for modifies clauses: a function that appends to a ghost
 // log must say so (callers assume undeclared logs unchanged)
@@ -145,6 +153,7 @@ func be32at1(b []byte) uint32 {
 
 //@ import "io"
 //@ import "math"
+//@ import "github.com/lightninglabs/lightning-node-connect/gbn"
 
 // ---- cipher state (C08) ---------------------------------------------------------
 
@@ -265,6 +274,134 @@ func pending(b *Machine) bool { return len(b.nextHeaderSend) > 0 || len(b.nextBo
 //@   ensures @C02 implies(err != nil, isnil(out))
 //@   ensures @C15 implies(err == nil, len(out) <= math.MaxUint16)
 //@   ensures fresh(out) || isnil(out)
+
+// ---- secured connections honour the stream contract (C15) -----------------------
+
+// appended(b, a, p): b == a ++ p.
+func appended(b, a, p []byte) bool {
+	if len(b) != len(a)+len(p) {
+		return false
+	}
+	for k := range a {
+		if b[k] != a[k] {
+			return false
+		}
+	}
+	for k := range p {
+		if b[len(a)+k] != p[k] {
+			return false
+		}
+	}
+	return true
+}
+
+// ncinv: a NoiseGrpcConn after the handshake.
+func ncinv(c *NoiseGrpcConn) bool {
+	return c != nil && c.noise != nil && !isnil(c.ProxyConn) && csinv(&c.noise.recvCipher) && csinv(&c.noise.sendCipher)
+}
+
+//@ func (c *NoiseGrpcConn) Read(b []byte) (n int, err error)
+//@   props C15 C02 C07
+//@   requires ncinv(c) && disjoint(b, c.nextMsg)
+//@   modifies c.nextMsg, elems(b), cryptolog(), c.noise.nextCipherHeader, c.noise.recvCipher.nonce, c.noise.recvCipher.secretKey,
+//@            c.noise.recvCipher.salt, c.noise.recvCipher.cipher
+//@   ensures ncinv(c)
+//@   ensures @C15 0 <= n && n <= len(b)
+//@   ensures @C15 implies(err != nil, n == 0)
+//@   ensures @C15 implies(old(len(c.nextMsg)) > 0, err == nil && nopens() == old(nopens()) && appended(old(c.nextMsg), b[:n], c.nextMsg))
+//@   ensures @C15 implies(old(len(c.nextMsg)) > 0 && len(b) > 0, n > 0)
+//@   at "return n, nil"#2 assert @C15 n <= len(b) && appended(requestBytes, b[:n], c.nextMsg)
+//@   ensures @C02 implies(err == nil && old(len(c.nextMsg)) == 0, nopens() == old(nopens())+2 && openok(nopens()-2) && openok(nopens()-1))
+
+//@ func (c *NoiseGrpcConn) Write(b []byte) (n int, err error)
+//@   props C15 C08 C07
+//@   requires ncinv(c)
+//@   modifies wire(), cryptolog(), c.noise.nextHeaderSend, c.noise.nextBodySend, c.noise.sendCipher.nonce, c.noise.sendCipher.secretKey,
+//@            c.noise.sendCipher.salt, c.noise.sendCipher.cipher
+//@   ensures ncinv(c)
+//@   ensures @C15 implies(len(b) > math.MaxUint16, err != nil && n == 0 && wirelen() == old(wirelen()) && nseals() == old(nseals()))
+//@   ensures @C15 implies(err == nil, n == len(b) && !pending(c.noise))
+//@   ensures @C15 0 <= n && n <= len(b)
+//@   ensures @C15 implies(err == nil && !old(pending(c.noise)), wirelen() == old(wirelen()) + encHeaderSize + len(b) + macSize)
+
+// nkinv: a NoiseConn after the handshake.
+func nkinv(c *NoiseConn) bool {
+	return c != nil && c.noise != nil && !isnil(c.conn) && csinv(&c.noise.recvCipher) && csinv(&c.noise.sendCipher)
+}
+
+//@ func (c *NoiseConn) Read(b []byte) (n int, err error)
+//@   props C15 C02 C07
+//@   requires nkinv(c) && disjoint(b, bufbytes(&c.readBuf))
+//@   modifies c.readBuf, elems(b), elems(bufbytes(&c.readBuf)), cryptolog(), c.noise.nextCipherHeader, c.noise.recvCipher.nonce,
+//@            c.noise.recvCipher.secretKey, c.noise.recvCipher.salt, c.noise.recvCipher.cipher
+//@   ensures nkinv(c)
+//@   ensures @C15 0 <= n && n <= len(b)
+//@   ensures @C15 implies(old(len(bufbytes(&c.readBuf))) > 0, nopens() == old(nopens()) && appended(old(bufbytes(&c.readBuf)), b[:n], bufbytes(&c.readBuf)))
+//@   ensures @C15 implies(old(len(bufbytes(&c.readBuf))) > 0 && len(b) > 0, n > 0 && err == nil)
+//@   at "return c.readBuf.Read(b)" assert @C15 implies(len(bufbytes(&c.readBuf)) > 0 && old(len(bufbytes(&c.readBuf))) == 0, nopens() == old(nopens())+2)
+
+//@ func (c *NoiseConn) Write(b []byte) (n int, err error)
+//@   props C15 C08 C07
+//@   requires nkinv(c) && !pending(c.noise)
+//@   modifies wire(), cryptolog(), c.noise.nextHeaderSend, c.noise.nextBodySend, c.noise.sendCipher.nonce, c.noise.sendCipher.secretKey,
+//@            c.noise.sendCipher.salt, c.noise.sendCipher.cipher
+//@   loop 0 invariant nkinv(c) && bytesWritten >= 0 && bytesWritten <= len(b) && bytesToWrite == len(b) && chunkSize >= 0 && chunkSize <= math.MaxUint16 &&
+//@          !pending(c.noise) && len(b) > math.MaxUint16
+//@   loop 0 invariant wirelen() >= old(wirelen()) && nseals() >= old(nseals())
+//@   ensures nkinv(c)
+//@   ensures @C15 0 <= n && n <= len(b)
+//@   ensures @C15 implies(err == nil, n == len(b) && !pending(c.noise))
+
+// implOK: the control connection behind a connKit is one of the two mailbox
+// connections with a usable GBN connection.
+func implOK(impl controlConn) bool {
+	return (is[*ClientConn](impl) && as[*ClientConn](impl) != nil && gbn.VerifConnUsable(as[*ClientConn](impl).gbnConn)) ||
+		(is[*ServerConn](impl) && as[*ServerConn](impl) != nil && gbn.VerifConnUsable(as[*ServerConn](impl).gbnConn))
+}
+
+//@ func (c *ClientConn) ReceiveControlMsg(receive ControlMsg) (err error)
+//@   props C15 C07
+//@   requires c != nil && gbn.VerifConnUsable(c.gbnConn) && is[*MsgData](receive) && as[*MsgData](receive) != nil
+//@   modifies as[*MsgData](receive).version, as[*MsgData](receive).Payload
+//@   noframe
+//@   ensures implies(err == nil && len(as[*MsgData](receive).Payload) > 0 && !sameslice(as[*MsgData](receive).Payload, old(as[*MsgData](receive).Payload)),
+//@           fresh(as[*MsgData](receive).Payload))
+
+//@ func (c *ServerConn) ReceiveControlMsg(receive ControlMsg) (err error)
+//@   props C15 C07
+//@   requires c != nil && gbn.VerifConnUsable(c.gbnConn) && is[*MsgData](receive) && as[*MsgData](receive) != nil
+//@   modifies as[*MsgData](receive).version, as[*MsgData](receive).Payload
+//@   noframe
+//@   ensures implies(err == nil && len(as[*MsgData](receive).Payload) > 0 && !sameslice(as[*MsgData](receive).Payload, old(as[*MsgData](receive).Payload)),
+//@           fresh(as[*MsgData](receive).Payload))
+
+//@ func (c *ClientConn) SendControlMsg(controlMsg ControlMsg) (err error)
+//@   props C15 C07
+//@   requires c != nil && gbn.VerifConnUsable(c.gbnConn) && is[*MsgData](controlMsg) && as[*MsgData](controlMsg) != nil &&
+//@            len(as[*MsgData](controlMsg).Payload) < 1<<32
+//@   noframe
+
+//@ func (c *ServerConn) SendControlMsg(controlMsg ControlMsg) (err error)
+//@   props C15 C07
+//@   requires c != nil && gbn.VerifConnUsable(c.gbnConn) && is[*MsgData](controlMsg) && as[*MsgData](controlMsg) != nil &&
+//@            len(as[*MsgData](controlMsg).Payload) < 1<<32
+//@   noframe
+
+//@ func (k *connKit) Read(b []byte) (n int, err error)
+//@   props C15 C07
+//@   requires k != nil && implOK(k.impl) && disjoint(b, bufbytes(&k.recvBuffer))
+//@   noframe
+//@   ensures @C15 0 <= n && n <= len(b)
+//@   ensures @C15 implies(old(len(bufbytes(&k.recvBuffer))) > 0, appended(old(bufbytes(&k.recvBuffer)), b[:n], bufbytes(&k.recvBuffer)))
+//@   ensures @C15 implies(old(len(bufbytes(&k.recvBuffer))) > 0 && len(b) > 0, n > 0 && err == nil)
+//@   at "k.recvBuffer.Write(data.Payload)" assert @C15 len(bufbytes(&k.recvBuffer)) == 0 && old(len(bufbytes(&k.recvBuffer))) == 0
+
+//@ func (k *connKit) Write(b []byte) (n int, err error)
+//@   props C15 C07
+//@   requires k != nil && implOK(k.impl) && len(b) < 1<<32
+//@   noframe
+//@   ensures @C15 implies(err == nil, n == len(b))
+//@   ensures @C15 implies(err != nil, n == 0)
 
 // ---- record framing (C16) -----------------------------------------------------
 
